@@ -121,7 +121,9 @@ class AddedDiagLinearOperator(SumLinearOperator):
         #
         # Through woodbury, (L L^T + D)^{-1} reduces down to (D^{-1} - D^{-1/2} Q Q^T D^{-1/2})
         # Through matrix determinant lemma, log |L L^T + D| reduces down to 2 log |R|
-        if self._q_cache is None:
+        # NOTE: _precond_lt is the last attribute that _init_cache assigns; testing it (rather than _q_cache) makes sure
+        # that a cache whose initialization was interrupted half-way (e.g. by an out-of-memory error) is rebuilt
+        if self._precond_lt is None:
             max_iter = settings.max_preconditioner_size.value()
             self._piv_chol_self = self._linear_op.pivoted_cholesky(rank=max_iter)
             if torch.any(torch.isnan(self._piv_chol_self)).item():
